@@ -59,6 +59,10 @@ def exit_after_value(form, ms, t0):
     if form == 'd:h:m:s': return f'0d:0:0:{s:g}'
     dt = datetime.datetime.fromtimestamp(t0 + s)
     if form == '@time' and dt.date() != datetime.datetime.now().date(): form = '@iso'   # '@hh:mm:ss' means today
+    if form.startswith('@iso') and len(form) > 4:       # '@iso-04:00': ISO form with an explicit UTC offset - the same instant, whatever LOG_UTC says
+        sign = 1 if form[4] == '+' else -1; hh, mm = form[5:].split(':')
+        tz = datetime.timezone(sign * datetime.timedelta(hours=int(hh), minutes=int(mm)))
+        return '@' + datetime.datetime.fromtimestamp(t0 + s, tz).isoformat()
     if form == '@iso': return '@' + dt.isoformat()
     if form == '@time': return '@' + dt.strftime('%H:%M:%S') + (f'.{dt.microsecond // 1000:03d}' if dt.microsecond else '')
     if form == '@date time': return '@' + dt.strftime('%Y/%m/%d %H:%M:%S') + (f'.{dt.microsecond // 1000:03d}' if dt.microsecond else '')
@@ -66,7 +70,7 @@ def exit_after_value(form, ms, t0):
     raise ValueError(form)
 
 
-EXIT_AFTER_FORMS = ['float', 'int', 'secs-str', 'm:s', 'h:m:s', 'd:h:m:s', '@iso', '@time', '@date time', '@dateTtime']
+EXIT_AFTER_FORMS = ['float', 'int', 'secs-str', 'm:s', 'h:m:s', 'd:h:m:s', '@iso', '@time', '@date time', '@dateTtime', '@iso+00:00', '@iso-04:00', '@iso+05:30']
 
 
 def make_class():
@@ -219,8 +223,10 @@ def run_impl(case, emitter=None):
             if ep is not None: ep.message_oob([reason])
             elif cb is not None: cb(reason)
         h.on_exit_msg = deliver
-    old_time, old_emitter = F.time, F.Filter.__dict__.get('emitter')
+    old_time, old_emitter, old_utc = F.time, F.Filter.__dict__.get('emitter'), F.LOG_UTC
     M.MQ.__init__ = mq_init; F.time = FakeTime(h); F.Filter.emitter = emitter
+    # LOG_UTC (module constant read from the environment): times WITHOUT an offset are then UTC; a time with an explicit offset means the same instant either way
+    if str(case.get('exit_after_form', '')).startswith('@iso') and len(case['exit_after_form']) > 4: F.LOG_UTC = bool(case.get('log_utc'))
     ev = threading.Event()
     try:
         try:
@@ -229,7 +235,7 @@ def run_impl(case, emitter=None):
         except BaseException as e:
             outcome = 'raises:' + ename(e); exc_class = type(e).__name__
     finally:
-        M.MQ.__init__ = real_init; F.time = old_time; F.Filter.emitter = old_emitter
+        M.MQ.__init__ = real_init; F.time = old_time; F.Filter.emitter = old_emitter; F.LOG_UTC = old_utc
     obs = {'outcome': outcome, 'stop': ev.is_set(), 'log': (['ctor'] if h.flt is not None else []) + h.log,
            'sent': list(h.sent_calls), 'fired': h.fired, 'exc_class': exc_class,
            'open_socks': sum(1 for x in world.all_socks if not x.closed) - base_open, 'ctx_ref': Z.ZMQContext.context[1] - base_ref}
